@@ -18,6 +18,7 @@ then one run per failure point.  After each run, whichever way the call ended:
 import io
 
 import ZConfig
+import ZConfig.cmdline
 import ZConfig.loader
 
 from zcsim import layout
@@ -87,6 +88,20 @@ def generate(rng, tier, index):
     # the rerun and a load of a wrapper that %include-s the top resource
     # (state a failed load leaves ON THE LOADER must not matter either)
     sc["reuse_loader"] = sc["kind"] == "config" and rng.random() < 0.5
+    sc["override"] = None
+    if sc["kind"] == "config" and not sc.get("packages") \
+            and rng.random() < 0.4:
+        # (not together with %import-ed components: an override that
+        # addresses a section of an imported type is refused until the
+        # loader has kept the import from an earlier load -- retention that
+        # is by design, see KF-1)
+        # one valid command-line override addressing a key the text sets:
+        # the loader is an ExtendedConfigLoader and the option bag is part
+        # of what a failed load must not leave in a changed state
+        from zcsim.props import c08
+        pool = c08._override_pool(rng, sc["uni"])
+        if pool:
+            sc["override"] = rng.choice(pool)
     return sc
 
 
@@ -125,7 +140,12 @@ class Ctx:
         if self.plan["kind"] == "schema":
             self.loader = ZConfig.loader.SchemaLoader()
         elif self.plan.get("reuse_loader"):
-            self.loader = ZConfig.loader.ConfigLoader(self.schema)
+            if self.plan.get("override"):
+                self.loader = ZConfig.cmdline.ExtendedConfigLoader(
+                    self.schema)
+                self.loader.addOption(self.plan["override"])
+            else:
+                self.loader = ZConfig.loader.ConfigLoader(self.schema)
 
     def run(self, store, faults, name):
         """One load under *faults*; returns (outcome, closure problems)."""
@@ -154,13 +174,15 @@ class Ctx:
             o = ops.config_outcome(fn)
         elif p["kind"] == "config":
             schema = self.schema
+            ov = [p["override"]] if p.get("override") else ()
             if entry == "url":
-                fn = lambda: ZConfig.loadConfig(schema, top)       # noqa
+                fn = lambda: ZConfig.loadConfig(schema, top, ov)   # noqa
             elif entry == "path":
-                fn = lambda: ZConfig.loadConfig(schema, _path_of(top))  # noqa
+                fn = lambda: ZConfig.loadConfig(                    # noqa
+                    schema, _path_of(top), ov)
             else:
                 fn = lambda: ZConfig.loadConfigFile(                # noqa
-                    schema, fobj(), top)
+                    schema, fobj(), top, ov)
             o = ops.config_outcome(fn)
         else:
             loader = self.loader
@@ -239,6 +261,8 @@ def failure_points(plan, recon):
                 if url.startswith("http:"):
                     pts.append({"faults": [{"seam": "open", "at": j,
                                             "kind": "read-truncated"}]})
+                    pts.append({"faults": [{"seam": "open", "at": j,
+                                            "kind": "read-truncated-huge"}]})
                 rk = "read-eio"
             pts.append({"faults": [{"seam": "read", "at": j, "kind": rk}]})
     for j in range(recon["n_getdata"]):
